@@ -26,6 +26,7 @@ from pathlib import Path
 import c06_universe as u6
 import c15_universe as uni
 import lib
+from translate import checkcall as tr_checkcall
 from translate import solve as tr_solve
 
 PROP = "C06"
@@ -37,7 +38,8 @@ NOBJ = len(u6.OBJ_NAMES)
 
 
 def gen_files():
-    return {"Solve.v": tr_solve.translate(str(lib.REPO)), "SolveAtoms.v": uni.gen_atoms_v(), "CallObjs.v": u6.gen_objs_v()}
+    return {"Solve.v": tr_solve.translate(str(lib.REPO)), "SolveAtoms.v": uni.gen_atoms_v(), "CallObjs.v": u6.gen_objs_v(),
+            "CheckCall.v": tr_checkcall.translate(str(lib.REPO))}
 
 
 # ---------------------------------------------------------------------------
@@ -920,7 +922,7 @@ def run(tier: str, replay: str | None = None):
     gen = None
     try:
         gen = gen_files()
-    except tr_solve.TranslateError as ex:
+    except (tr_solve.TranslateError, tr_checkcall.TranslateError) as ex:
         broken_translation = str(ex)
     proof = lib.prove(PROP, gen, extra_targets=["theories/Gen/CallObjs.vo", "theories/Call/Model.vo"], thorough=(tier == "thorough")) if gen is not None else None
 
@@ -1081,7 +1083,7 @@ def run(tier: str, replay: str | None = None):
         rep.violation({"kind": "broken-correspondence", "correspondence": "Call.Model.check_call vs NameCheckVisitor on generated modules",
                        "input": case_in, "observed": obs["impl"], "model": obs["model"], "why": obs["why"], "n_mismatches": len(corr)}, no_failing_input=True)
     if broken_translation and not found:
-        rep.violation({"kind": "broken-obligation", "theorem": "Gen/Solve.v (translator harness/translate/solve.py)", "detail": broken_translation}, no_failing_input=True)
+        rep.violation({"kind": "broken-obligation", "theorem": "Gen/Solve.v / Gen/CheckCall.v (translators harness/translate/solve.py, checkcall.py)", "detail": broken_translation}, no_failing_input=True)
     if proof is not None and not proof.ok and not found:
         rep.violation({"kind": "broken-obligation", "theorem": "; ".join(proof.broken), "log": proof.log[-1500:]}, no_failing_input=True)
 
